@@ -10,29 +10,35 @@ from props._c04_kernel import KERNEL_EVENTS, PIDMAX, Table
 
 ID = "C04"
 COQ_REQUIRE = "C04.Run"
-SHARD = 100
+SHARD = 150
 RULE = ("histories of 5-60 events drawn from a weighted grammar over kernel events (spawn / exit to zombie / reap / PID reuse "
         "with equal or different start ticks / thread creation and exit) and psutil calls (pids, pid_exists over magnitudes up to "
         "10^30 and thread ids, process_iter generators created with attrs None / valid / duplicate / empty / invalid names, "
         "advanced one yield at a time in any interleaving, closed early, cache_clear, is_running on previously yielded objects), "
         "plus directed motifs (reuse then is_running then iterate; two generators interleaved; vanish during iteration) and a "
-        "pid_exists magnitude sweep; procfs root listings with digit / non-digit / non-ASCII-digit names; /proc/<n>/status files "
+        "pid_exists magnitude sweep; two real threads inside process_iter() at once under explicit line-level schedules (thread 0 "
+        "for i lines, thread 1 for j lines, then drain; plus random schedules) with a PID marked as reused; procfs root listings with digit / non-digit / non-ASCII-digit names; /proc/<n>/status files "
         "printed by the kernel printer and malformed ones crossed with the four os.kill results. A history is non-trivial when it "
         "calls psutil at least once; distinct = distinct canonical case hash.")
 TRUSTED = ["correspondence harness props/C04.py + props/_c04_kernel.py + pv/ (fake /proc tree; os.kill and os.listdir replaced so that "
-           "thread ids answer kill(0) and have /proc/<tid>/status but are not listed)",
+           "thread ids answer kill(0) and have /proc/<tid>/status but are not listed; props/_c04_sched.py line-level thread scheduler)",
            "hand-written model coq/C04/Model.v of psutil/__init__.py pids/pid_exists/process_iter/is_running/as_dict(keys) and "
            "_pslinux.pids/pid_exists, tied to the code by this run only",
            "formats of the procfs root listing and of /proc/<n>/status (Tgid line) in coq/C04/Spec.v"]
-ASSUMPTIONS = ["every psutil call is atomic with respect to kernel events; generators interleave at yield points (two threads iterating "
-               "at once are modelled at that granularity; the line-level window around _pids_reused.pop() is not explored)",
+ASSUMPTIONS = ["every psutil call is atomic with respect to kernel events; in the theorems generators interleave at yield points (two "
+               "generator objects advanced alternately); the line-level window of two threads inside the prologue of process_iter() "
+               "(around _pids_reused.pop()) is sampled with a deterministic settrace scheduler, not proved",
                "start ticks below 2^53 (Process._ident holds ticks/CLK_TCK as a float)",
+               "the model uses the cache key as the pid of a cached object (entries are only made by pmap[proc.pid] = proc)",
                "CPython semantics of sorted/set/dict/generators/bytes.isdigit/int are modelled, not verified",
-               "as_dict() is modelled up to its key set and its NoSuchProcess/ValueError behaviour; attribute universe of the runs: "
-               "pid,name,ppid,status,num_threads,cpu_times,cpu_num (attrs=[] runs with psutil._as_dict_attrnames narrowed to these)"]
-EXHAUSTIVE = {"quick": "pid_exists over {-1,0..9,2^15,2^22,2^31-1,2^31,2^31+1,2^32,2^63-1,2^63,2^64,10^30} x {listed,thread id,absent}",
+               "as_dict() is modelled up to its key set, its NoSuchProcess/ValueError behaviour and the is_running() call made by "
+               "ppid(); histories where the iteration order of the name set decides whether that call happened are skipped "
+               "(OutOfModel); attribute universe of the runs: pid,name,ppid,status,num_threads,cpu_times,cpu_num (attrs=[] runs "
+               "with psutil._as_dict_attrnames narrowed to these minus ppid)"]
+EXHAUSTIVE = {"quick": "two-thread schedules 0^i 1^j for i,j < 13; pid_exists over {-1,0..9,2^15,2^22,2^31-1,2^31,2^31+1,2^32,2^63-1,2^63,2^64,10^30} x {listed,thread id,absent}",
               "thorough": "all 11^1..11^4 event strings over {spawn 1 (2 start values), reap 1, reap 2, new generator, next on generator "
-                          "0/1, close 0, cache_clear, is_running on yield 0/1} after a warm-cache prefix; pid_exists magnitude sweep"}
+                          "0/1, close 0, cache_clear, is_running on yield 0/1} after a warm-cache prefix; two-thread schedules 0^i 1^j "
+                          "for i,j < 18; pid_exists magnitude sweep"}
 
 NAMES = ["pid", "name", "ppid", "status", "num_threads", "cpu_times", "cpu_num"]
 BAD = {"bogus": 100, "xyz": 101}
@@ -210,8 +216,8 @@ KILLS = ["ok", "ok", "ok", "eperm", "esrch", "overflow"]
 
 
 def gen_cases(rng, tier):
-    n_hist = {"quick": 700, "thorough": 12000, "search": 700}[tier]
-    n_txt = {"quick": 150, "thorough": 2000, "search": 100}[tier]
+    n_hist = {"quick": 700, "thorough": 5000, "search": 700}[tier]
+    n_txt = {"quick": 150, "thorough": 1500, "search": 100}[tier]
     cases = []
     for v in range(3):
         cases.append(_hist_case(_sweep(v), "pidexists-sweep"))
@@ -233,6 +239,12 @@ def gen_cases(rng, tier):
                 # drain whatever is still running so that exhaustion checks apply
                 evs += [["IterNext", 1]] * 3 + [["IterNext", 2]] * 3
                 cases.append(_hist_case(evs, "small-scope"))
+    nsch = {"quick": 13, "thorough": 18, "search": 13}[tier]
+    for i in range(nsch):
+        for j in range(nsch):
+            cases.append({"kind": "sched", "cls": "sched-2threads", "schedule": [0] * i + [1] * j})
+    for _ in range({"quick": 30, "thorough": 300, "search": 30}[tier]):
+        cases.append({"kind": "sched", "cls": "sched-2threads-random", "schedule": [rng.randint(0, 1) for _ in range(40)]})
     for _ in range(n_txt):
         k = rng.randint(0, 8)
         names = [rng.choice(LIST_NAMES) for _ in range(k)]
@@ -300,6 +312,8 @@ def coq_term(case):
     k = case["kind"]
     if k == "hist":
         return "run_hist %s %s" % (G.lst([G.z(c) for c in valid_codes(case)]), G.lst([_ev_term(e) for e in case["events"]]))
+    if k == "sched":
+        return "JL []"
     if k == "listing":
         return "run_listing %s" % G.lst(["(%s %s)" % ("DPid" if _is_pid_name(n) else "DOther", G.by(n)) for n in case["names"]])
     if k == "status":
@@ -341,6 +355,8 @@ def coq_struct(case, raw):
         oom = any(isinstance(e, list) and isinstance(e[0], dict) and e[0].get("t") == "Oom" for e in evs)
         return {"model": model, "spec": None, "spec_events": spec, "marked_at_entry": bool(flag_a),
                 "stale_skip": bool(flag_b), "oom": oom}
+    if k == "sched":
+        return {"model": None, "spec": None}
     if k == "listing":
         spec = raw[2]
         if spec is not None:
@@ -472,6 +488,16 @@ def oracle(case, coq, impl):
 
 def judge(case, coq, impl):
     from pv.core import Verdict, default_judge
+    if case["kind"] == "sched":
+        # two threads inside process_iter() at once, PID 2 marked as reused: no exception may escape, each thread gets an
+        # ascending list of listed PIDs containing the unaffected PIDs 1 and 3 (PID 2 may be missing: known finding)
+        for tid, r in enumerate(impl):
+            if r[0] != "ok":
+                return Verdict("violation", "thread %d: process_iter() raised %s" % (tid, r[1:]))
+            l = r[1]
+            if l != sorted(set(l)) or not set(l) <= {1, 2, 3} or not {1, 3} <= set(l):
+                return Verdict("violation", "thread %d: process_iter() yielded %r for the table {1,2,3}" % (tid, l))
+        return Verdict("ok")
     if case["kind"] != "hist":
         return default_judge(None, case, coq, impl)
     if coq.get("oom"):
@@ -678,8 +704,31 @@ def _run_text(case, coq, env, psutil):
         _reset(psutil)
 
 
+def _run_sched(case, env, psutil):
+    from pv import fakeproc
+    from props._c04_sched import run_two
+    root = os.path.join(env["work"], "proc")
+    fp = fakeproc.FakeProc(root)
+    fakeproc.attach(psutil, root)
+    _reset(psutil)
+    try:
+        with _Patches(root, hidden=set()):
+            for p in (1, 2, 3):
+                fp.add(p, starttime=100)
+            objs = list(psutil.process_iter())
+            fp.remove(2)
+            fp.add(2, starttime=200)
+            assert objs[1].pid == 2 and objs[1].is_running() is False and psutil._pids_reused == {2}
+            res = run_two(lambda tid: [p.pid for p in psutil.process_iter()], case["schedule"])
+        return [list(r) for r in res]
+    finally:
+        _reset(psutil)
+
+
 def impl_run(case, coq, env):
     import psutil
+    if case["kind"] == "sched":
+        return _run_sched(case, env, psutil)
     if case["kind"] == "hist":
         return _run_hist(case, env, psutil)
     return _run_text(case, coq, env, psutil)
